@@ -1,22 +1,23 @@
-SPECIFICATION GenSpec
+SPECIFICATION DupSpec
 CONSTANTS
   RT = 3
   Limit = 0
   StaleRule = "impl"
   LabelsOf <- MCLabels
-  CanonIds <- MCCanon13x
-  MaxTime = 40
-  HistLen = 40
-  Pick <- PickOne
+  CanonIds <- MCCanon13
+  MaxTime = 6
+  HistLen = 3
+  T0 = 2
+  Pick <- PickAll
   KnownGaps = {}
-  Variants = {"L1", "L1e", "L2", "L2e", "L3", "Lbad", "Lnone"}
+  Variants = {"L1"}
   Variants2 = {}
   StartOffs = {0, 1, 2, 3, 4, 5}
   EndOffs = {0, 1, 2, 3, 4, 5, 7}
   FixedStart <- Unset
-  MaxBatch = 3
+  MaxBatch = 2
   SameInstant = FALSE
-  GCPers = {1, 2, 3, 5, 100}
-  Ops = {"postn", "sil", "postdup", "postsame"}
+  GCPers = {100}
+  Ops = {"post1", "postdup", "postsame"}
 INVARIANTS Emit
 CHECK_DEADLOCK FALSE
